@@ -80,7 +80,9 @@ type c19RSpec struct {
 //	du    user deletes Usage name
 //	dr    delete request for a resource (av, kind, name, policy, wo = outcomes of the webhook's List and Patch)
 //	gc    Kubernetes GC considers one object (kind "Usage" or av/kind, name)
-//	xa    the XR composer re-applies the composed Usage name, controlled by XR ctrl (RespectOwnerRefs)
+//	xa    the XR composer re-applies the composed Usage name, controlled by XR ctrl (RespectOwnerRefs);
+//	      av = the apiVersion the Composition's template names for the Usage ("" = v1beta1)
+//	er    another writer merges labels into a resource (av, kind, name, labels): a merge patch
 //	start start a reconcile of Usage u (parked before its first call)
 //	step  let the reconcile of u perform its next API call with outcome o
 //	run   start (unless in flight) and run the reconcile of u to completion, all calls ok
@@ -100,6 +102,8 @@ type c19Step struct {
 	WO       []string          `json:"wo,omitempty"`
 	U        string            `json:"u,omitempty"`
 	O        string            `json:"o,omitempty"`
+	E        string            `json:"e,omitempty"` // step: error class of an injected failure (o == "fail")
+	V        int               `json:"v,omitempty"` // step, dr: events the informer cache lags behind for this call's cached read
 }
 
 type c19Scn struct {
@@ -270,12 +274,12 @@ type c19Wire struct {
 
 var c19LogOnce sync.Once
 
-func c19NewWire(st *Store) *c19Wire {
+func c19NewWire(st *Store, cl client.Client) *c19Wire {
 	// the admission.Webhook logs through controller-runtime's global logger: silence it
 	c19LogOnce.Do(func() { crlog.SetLogger(logr.Discard()) })
 	w := &c19Wire{st: st, idx: &c19Indexer{}, cfg: c19LoadHookCfg()}
 	hs := &c19HookServer{hooks: map[string]http.Handler{}}
-	mgr := &c19Mgr{cl: st, idx: w.idx, wh: hs}
+	mgr := &c19Mgr{cl: cl, idx: w.idx, wh: hs}
 	if err := usagehook.SetupWebhookWithManager(mgr, xpcontroller.Options{Logger: logging.NewNopLogger()}); err != nil {
 		w.err = err.Error()
 		return w
@@ -320,6 +324,19 @@ type c19Thread struct {
 	// the Usage (by uid) and its using resource (by uid) as they were when this reconcile started;
 	// held = both are still the same objects after every scenario step since (nil: no resolved spec.by)
 	trk *c19Track
+	// directives for the call about to be released, and what the caller was told
+	cur c19Call
+	ret string
+	// bookkeeping of the world: number of calls so far; call number of the last successful Get per
+	// resource key and of the last Usage List; Usages the (cached) List served; whether that List /
+	// the Get of the Usage lagged behind the store; uid of the Usage the Get served
+	calls       int
+	gotAt       map[string]int
+	listAt      int
+	served      map[string]bool
+	listLagging bool
+	freshGet    bool
+	servedUID   types.UID
 }
 
 // c19Track: "the Usage and its using resource exist, as the same objects, throughout the reconcile".
@@ -344,94 +361,6 @@ type c19Claim struct {
 	released bool
 }
 
-type c19Gate struct {
-	*Store
-	t *c19Thread
-}
-
-func (g *c19Gate) wait() {
-	if g.Store.Crashed() {
-		return
-	}
-	g.t.parked <- struct{}{}
-	<-g.t.release
-}
-
-// storageVersion makes an update through another API version of the same
-// group/kind keep the stored apiVersion (simstore would otherwise record the
-// version change as a content change, which a real API server does not).
-func (g *c19Gate) storageVersion(obj client.Object) func() {
-	u, ok := obj.(*unstructured.Unstructured)
-	if !ok {
-		return func() {}
-	}
-	cur := g.Store.Peek(u.GroupVersionKind().GroupKind(), u.GetNamespace(), u.GetName())
-	if cur == nil || cur.GetAPIVersion() == u.GetAPIVersion() {
-		return func() {}
-	}
-	av := u.GetAPIVersion()
-	u.SetAPIVersion(cur.GetAPIVersion())
-	return func() { u.SetAPIVersion(av) }
-}
-
-func (g *c19Gate) Get(ctx context.Context, key client.ObjectKey, obj client.Object, opts ...client.GetOption) error {
-	g.wait()
-	return g.Store.Get(ctx, key, obj, opts...)
-}
-
-func (g *c19Gate) List(ctx context.Context, list client.ObjectList, opts ...client.ListOption) error {
-	g.wait()
-	return g.Store.List(ctx, list, opts...)
-}
-
-func (g *c19Gate) Create(ctx context.Context, obj client.Object, opts ...client.CreateOption) error {
-	g.wait()
-	return g.Store.Create(ctx, obj, opts...)
-}
-
-func (g *c19Gate) Update(ctx context.Context, obj client.Object, opts ...client.UpdateOption) error {
-	g.wait()
-	defer g.storageVersion(obj)()
-	return g.Store.Update(ctx, obj, opts...)
-}
-
-func (g *c19Gate) Patch(ctx context.Context, obj client.Object, p client.Patch, opts ...client.PatchOption) error {
-	g.wait()
-	return g.Store.Patch(ctx, obj, p, opts...)
-}
-
-func (g *c19Gate) Delete(ctx context.Context, obj client.Object, opts ...client.DeleteOption) error {
-	g.wait()
-	return g.Store.Delete(ctx, obj, opts...)
-}
-
-func (g *c19Gate) DeleteAllOf(ctx context.Context, obj client.Object, opts ...client.DeleteAllOfOption) error {
-	g.wait()
-	return g.Store.DeleteAllOf(ctx, obj, opts...)
-}
-
-type c19GateSub struct {
-	g *c19Gate
-	w client.SubResourceWriter
-}
-
-func (s c19GateSub) Create(ctx context.Context, obj client.Object, sub client.Object, opts ...client.SubResourceCreateOption) error {
-	s.g.wait()
-	return s.w.Create(ctx, obj, sub, opts...)
-}
-
-func (s c19GateSub) Update(ctx context.Context, obj client.Object, opts ...client.SubResourceUpdateOption) error {
-	s.g.wait()
-	return s.w.Update(ctx, obj, opts...)
-}
-
-func (s c19GateSub) Patch(ctx context.Context, obj client.Object, p client.Patch, opts ...client.SubResourcePatchOption) error {
-	s.g.wait()
-	return s.w.Patch(ctx, obj, p, opts...)
-}
-
-func (g *c19Gate) Status() client.SubResourceWriter { return c19GateSub{g, g.Store.Status()} }
-
 // ---------------------------------------------------------------- the system under test
 
 type c19Sys struct {
@@ -453,13 +382,30 @@ type c19Sys struct {
 	stale map[string]bool
 	// tainted[uid]: Usage uid went ready-but-unmarked as a consequence of D16; later consequences
 	// for the same Usage (e.g. its used resource deleted and re-created) are the same finding
-	tainted map[types.UID]bool
+	tainted map[types.UID]string
 	// born[uid] = key of the resource that was created with that uid (never forgotten)
 	born map[types.UID]string
 	// claims[usage uid]: see c19Claim
 	claims map[types.UID]*c19Claim
 	// released[usage uid]: a user asked for the deletion of that Usage
 	released map[types.UID]bool
+
+	// the world (c19_world.go): the one client, the one Reconciler of the scenario, the informer
+	// cache (history of the Usage collection, one entry per event, and the cache's position)
+	cl   *c19Client
+	rec  *usagectrl.Reconciler
+	hist [][]*unstructured.Unstructured
+	cpos int
+	// the webhook's current request: directives per call, what its calls returned, what its List
+	// was served / would have been served live
+	hookCall    c19Call
+	hookRets    []string
+	hookServed  map[string]bool
+	hookLive    map[string]bool
+	hookLagging bool
+	// lagStale[k]: the in-use label of k was removed by a reconcile whose cached List lagged behind
+	// the store and missed a Usage of k (finding: informer-cache lag of the Usage index)
+	lagStale map[string]bool
 }
 
 func (s *c19Sys) mon(sig, why string) {
@@ -474,8 +420,13 @@ func c19NewSys(maxc int) *c19Sys {
 	sc := runtime.NewScheme()
 	_ = v1beta1.AddToScheme(sc)
 	st := NewStore(sc)
-	s := &c19Sys{st: st, maxc: maxc, threads: map[string]*c19Thread{}, monSeen: map[string]bool{}, stale: map[string]bool{}, tainted: map[types.UID]bool{}, born: map[types.UID]string{}, claims: map[types.UID]*c19Claim{}, released: map[types.UID]bool{}}
-	s.wire = c19NewWire(st)
+	s := &c19Sys{st: st, maxc: maxc, threads: map[string]*c19Thread{}, monSeen: map[string]bool{}, stale: map[string]bool{}, tainted: map[types.UID]string{}, born: map[types.UID]string{}, claims: map[types.UID]*c19Claim{}, released: map[types.UID]bool{}, lagStale: map[string]bool{}}
+	// ONE client, ONE webhook handler and ONE Reconciler per scenario, as Setup /
+	// SetupWebhookWithManager build them once per process
+	s.cl = &c19Client{Store: st, s: s}
+	s.wire = c19NewWire(st, s.cl)
+	s.rec = usagectrl.NewReconciler(&c19Mgr{cl: s.cl}, usagectrl.WithPollInterval(c19PollEvery))
+	s.record()
 	if s.wire.err != "" {
 		s.mon("C19:webhook-setup-failed", s.wire.err)
 	}
@@ -594,20 +545,26 @@ func (s *c19Sys) active() int {
 	return n
 }
 
+// start = one scenario event (the informer-cache history gets one entry per event)
 func (s *c19Sys) start(name string) string {
+	r := s.start0(name)
+	s.record()
+	return r
+}
+
+func (s *c19Sys) start0(name string) string {
 	if t, ok := s.threads[name]; ok && !t.done {
 		return "ignored"
 	}
 	if s.active() >= s.maxc {
 		return "ignored"
 	}
-	t := &c19Thread{name: name, release: make(chan struct{}), parked: make(chan struct{})}
+	t := &c19Thread{name: name, release: make(chan struct{}), parked: make(chan struct{}), gotAt: map[string]int{}}
 	s.threads[name] = t
-	gate := &c19Gate{Store: s.st, t: t}
-	r := usagectrl.NewReconciler(&c19Mgr{cl: gate}, usagectrl.WithPollInterval(c19PollEvery))
+	ctx := context.WithValue(context.Background(), c19ThreadKey{}, t)
 	go func() {
 		t.panic = Guard(func() {
-			t.res, t.err = r.Reconcile(context.Background(), reconcile.Request{NamespacedName: types.NamespacedName{Name: name}})
+			t.res, t.err = s.rec.Reconcile(ctx, reconcile.Request{NamespacedName: types.NamespacedName{Name: name}})
 		})
 		t.done = true
 		t.parked <- struct{}{}
@@ -736,9 +693,23 @@ func (s *c19Sys) finish(t *c19Thread) string {
 		r += "/err"
 	}
 	if r == "poll" {
-		s.afterReconcile(t)
+		s.afterPoll(t)
+		if t.freshGet {
+			s.afterReconcile(t)
+		}
 	}
 	return "done:" + r
+}
+
+// afterPoll: a reconcile reported success (requeue after the poll interval, no error): the Usage
+// it was handed - if it is still that object and nobody asked for its deletion - reports ready.
+func (s *c19Sys) afterPoll(t *c19Thread) {
+	sn := s.snapshot()
+	u, ok := sn.Usages[t.name]
+	if !ok || u.UID != t.servedUID || u.Deleting || u.Ready {
+		return
+	}
+	s.mon("C19:poll-without-ready", fmt.Sprintf("the reconcile of Usage %s reported success although the Usage does not report ready", t.name))
 }
 
 func c19Outcome(o string) Outcome {
@@ -755,23 +726,37 @@ func c19Outcome(o string) Outcome {
 	return OK
 }
 
-// stepThread releases the reconcile of `name` for exactly one API call.
-func (s *c19Sys) stepThread(name, o string) string {
+// stepThread releases the reconcile of `name` for exactly one API call answered as `call`
+// says (outcome, error class, informer-cache lag); one scenario event.
+func (s *c19Sys) stepThread(name string, call c19Call) string {
+	r := s.step0(name, call)
+	s.record()
+	return r
+}
+
+func (s *c19Sys) step0(name string, call c19Call) string {
 	t, ok := s.threads[name]
 	if !ok || t.done {
 		return "ignored"
 	}
-	oc := c19Outcome(o)
+	oc := c19Outcome(call.O)
 	n0 := len(s.st.Log)
 	before := s.snapshot()
 	s.st.Plan = func(CallInfo) Outcome { return oc }
+	t.cur, t.ret = call, ""
 	t.release <- struct{}{}
 	<-t.parked
 	s.st.Plan = nil
 	out := "?"
 	if len(s.st.Log) > n0 {
 		c := s.st.Log[n0]
-		out = fmt.Sprintf("%s %s %s%s -> %s", c.Verb, c.GK, c.Name, map[bool]string{true: "/" + c.Sub, false: ""}[c.Sub != ""], map[bool]string{true: "ok", false: c.Err}[c.Err == ""])
+		// what the reconciler was told (the cache's answer / the injected class), not what the store logged
+		ret := t.ret
+		if c.Err == "crashed" || ret == "" {
+			ret = map[bool]string{true: "ok", false: c.Err}[c.Err == ""]
+		}
+		c.Err = map[bool]string{true: "", false: ret}[ret == "ok"]
+		out = fmt.Sprintf("%s %s %s%s -> %s", c.Verb, c.GK, c.Name, map[bool]string{true: "/" + c.Sub, false: ""}[c.Sub != ""], ret)
 		s.afterCall(t, c, before)
 	}
 	if t.done {
@@ -782,7 +767,9 @@ func (s *c19Sys) stepThread(name, o string) string {
 
 func (s *c19Sys) run(name string) string {
 	var parts []string
+	var pre *c19Snap
 	if t, ok := s.threads[name]; !ok || t.done {
+		pre = s.snapshot()
 		r := s.start(name)
 		parts = append(parts, r)
 		if r != "started" {
@@ -790,16 +777,64 @@ func (s *c19Sys) run(name string) string {
 		}
 	}
 	for i := 0; i < 40; i++ {
-		r := s.stepThread(name, "ok")
+		r := s.stepThread(name, c19Call{O: "ok"})
 		parts = append(parts, r)
 		if _, still := s.threads[name]; !still {
+			if pre != nil {
+				s.afterCleanRun(name, pre, r)
+			}
 			break
 		}
 	}
 	return strings.Join(parts, "|")
 }
 
-func (s *c19Sys) deleteRes(av, kind, name, policy string, wo []string, gcReq bool) string {
+// afterCleanRun: a whole reconcile ran from its first call to its return without faults, cache
+// lag or anybody else acting in between. "Protection ends exactly when use ends": if the Usage's
+// deletion had been requested and the reconcile returned success without asking to be run again,
+// the Usage is gone; and if no other Usage named the used resource, that resource (when it is
+// still the same object) no longer carries the in-use label.
+func (s *c19Sys) afterCleanRun(name string, pre *c19Snap, last string) {
+	u, ok := pre.Usages[name]
+	if !ok || !u.Deleting || !strings.HasSuffix(last, ";done:none") {
+		return
+	}
+	post := s.snapshot()
+	if a, still := post.Usages[name]; still && a.UID == u.UID {
+		s.mon("C19:deleted-usage-not-released", fmt.Sprintf("an undisturbed reconcile of Usage %s, whose deletion had been requested, returned success but the Usage is still there", name))
+		return
+	}
+	for k, r := range pre.Res {
+		if !u.names(r) || !r.InUse {
+			continue
+		}
+		others := 0
+		for _, x := range pre.Usages {
+			if x.Name != name && len(x.Indexes) > 0 && x.Indexes[0] == r.IndexValue {
+				others++
+			}
+		}
+		if a, ok := post.Res[k]; ok && a.UID == r.UID && a.InUse && others == 0 {
+			s.mon("C19:marker-kept-after-last-usage", fmt.Sprintf("an undisturbed reconcile deleted Usage %s, the last Usage of %s, but the resource still carries the in-use label", name, k))
+		}
+	}
+}
+
+// c19HookOutcome: an entry of `wo` is an outcome (ok fail conflict) or an error class (= fail
+// carrying that class).
+func c19HookOutcome(w string) (Outcome, string) {
+	switch w {
+	case "", "ok":
+		return OK, ""
+	case "fail":
+		return Fail, ""
+	case "conflict":
+		return Conflict, ""
+	}
+	return Fail, w
+}
+
+func (s *c19Sys) deleteRes(av, kind, name, policy string, wo []string, lag int, gcReq bool) string {
 	o := &unstructured.Unstructured{}
 	o.SetAPIVersion(av)
 	o.SetKind(kind)
@@ -807,18 +842,23 @@ func (s *c19Sys) deleteRes(av, kind, name, policy string, wo []string, gcReq boo
 	before := s.snapshot()
 	s.reqAV, s.reqPolicy = av, policy
 	s.hookInvoked, s.hookCode, s.hookAllowed = false, 0, false
+	s.hookRets, s.hookServed, s.hookLive, s.hookLagging = nil, nil, nil, false
+	s.hookCall = c19Call{O: "ok", V: lag}
 	s.st.Plan = func(c CallInfo) Outcome {
+		w := ""
 		switch c.Verb {
 		case "list":
 			if len(wo) > 0 {
-				return c19Outcome(wo[0])
+				w = wo[0]
 			}
 		case "patch":
 			if len(wo) > 1 {
-				return c19Outcome(wo[1])
+				w = wo[1]
 			}
 		}
-		return OK
+		oc, cls := c19HookOutcome(w)
+		s.hookCall = c19Call{O: oc.String(), E: cls, V: lag}
+		return oc
 	}
 	err := s.st.Delete(context.Background(), o)
 	s.st.Plan = nil
@@ -880,10 +920,49 @@ func (s *c19Sys) gc(st c19Step) string {
 		}
 		return "gc:" + c19ErrStr(err)
 	}
-	return "gc:" + s.deleteRes(o.GetAPIVersion(), st.Kind, st.Name, "Background", nil, true)
+	return "gc:" + s.deleteRes(o.GetAPIVersion(), st.Kind, st.Name, "Background", nil, 0, true)
 }
 
+// exec runs one schedule entry; every entry that is not made of reconcile events (start, step,
+// run record their own) is one event of the informer-cache history.
 func (s *c19Sys) exec(st c19Step) string {
+	r := s.exec0(st)
+	switch st.Op {
+	case "start", "step", "run":
+	default:
+		s.record()
+	}
+	return r
+}
+
+// touch: another writer (the XR composer patching a composed resource, a provider, a user)
+// merges labels into a resource with a merge patch: no resourceVersion, nothing else touched.
+func (s *c19Sys) touch(st c19Step) string {
+	o := &unstructured.Unstructured{}
+	o.SetAPIVersion(st.AV)
+	o.SetKind(st.Kind)
+	o.SetName(st.Name)
+	cur := s.st.Peek(o.GroupVersionKind().GroupKind(), "", st.Name)
+	if cur == nil {
+		return "notFound"
+	}
+	o.SetAPIVersion(cur.GetAPIVersion())
+	before := s.snapshot()
+	l := map[string]any{}
+	for k, v := range st.Labels {
+		l[k] = v
+	}
+	err := s.st.Patch(context.Background(), o, client.RawPatch(types.MergePatchType, []byte(mustJSON(map[string]any{"metadata": map[string]any{"labels": l}}))))
+	after := s.snapshot()
+	for k, rb := range before.Res {
+		if ra, ok := after.Res[k]; ok && ra.UID == rb.UID && rb.InUse && !ra.InUse {
+			s.mon("C19:marker-removed-by-other-writer", "harness: a label edit removed the in-use label of "+k)
+		}
+	}
+	return c19ErrStr(err)
+}
+
+func (s *c19Sys) exec0(st c19Step) string {
 	ctx := context.Background()
 	switch st.Op {
 	case "cr":
@@ -933,15 +1012,17 @@ func (s *c19Sys) exec(st c19Step) string {
 		}
 		return c19ErrStr(err)
 	case "dr":
-		return s.deleteRes(st.AV, st.Kind, st.Name, st.Policy, st.WO, false)
+		return s.deleteRes(st.AV, st.Kind, st.Name, st.Policy, st.WO, st.V, false)
 	case "gc":
 		return s.gc(st)
 	case "xa":
-		return s.reapply(st.Name, st.Ctrl)
+		return s.reapply(st.Name, st.Ctrl, st.AV)
+	case "er":
+		return s.touch(st)
 	case "start":
 		return s.start(st.U)
 	case "step":
-		return s.stepThread(st.U, st.O)
+		return s.stepThread(st.U, c19Call{O: st.O, E: st.E, V: st.V})
 	case "run":
 		return s.run(st.U)
 	}
@@ -951,7 +1032,7 @@ func (s *c19Sys) exec(st c19Step) string {
 // reapply is what the P&T composer does for a composed Usage on every XR reconcile
 // (composition_pt.go): Apply(cd, MustBeControllableBy(xr), usage.RespectOwnerRefs()) through
 // the patching applicator, where the desired object carries only the XR's controller reference.
-func (s *c19Sys) reapply(name, ctrl string) string {
+func (s *c19Sys) reapply(name, ctrl, av string) string {
 	cur := s.st.Peek(c19UsageGK, "", name)
 	refs := s.ownerRefTo(ctrl)
 	if cur == nil || len(refs) == 0 {
@@ -964,7 +1045,12 @@ func (s *c19Sys) reapply(name, ctrl string) string {
 	unstructured.RemoveNestedField(desired.Object, "metadata", "managedFields")
 	unstructured.RemoveNestedField(desired.Object, "status")
 	desired.SetOwnerReferences(refs)
-	err := xpresource.NewAPIPatchingApplicator(xpunstructured.NewClient(s.st)).Apply(context.Background(), desired,
+	if av != "" {
+		// the Composition's template names another served version of the Usage kind: the composer
+		// reads and patches the Usage through that version
+		desired.SetAPIVersion(av)
+	}
+	err := xpresource.NewAPIPatchingApplicator(xpunstructured.NewClient(c19ComposerClient{s.st})).Apply(context.Background(), desired,
 		xpresource.MustBeControllableBy(refs[0].UID), usagectrl.RespectOwnerRefs())
 	after := s.snapshot()
 	if b, ok := before.Usages[name]; ok {
@@ -978,7 +1064,9 @@ func (s *c19Sys) reapply(name, ctrl string) string {
 					}
 				}
 			}
-			if !kept {
+			if !kept && av != "" && av != v1beta1.SchemeGroupVersion.String() {
+				s.mon("C19:owner-reference-dropped-for-other-usage-version", fmt.Sprintf("re-applying the composed Usage %s through apiVersion %s (a served version of the Usage kind) dropped its owner reference to %s/%s: RespectOwnerRefs recognises a Usage by its whole GroupVersionKind", name, av, o.Kind, o.Name))
+			} else if !kept {
 				s.mon("C19:owner-reference-dropped-by-composer", fmt.Sprintf("re-applying the composed Usage %s dropped its owner reference to %s/%s", name, o.Kind, o.Name))
 			}
 		}
@@ -1004,7 +1092,7 @@ func (s *c19Sys) drain() {
 			if _, ok := s.threads[n]; !ok {
 				break
 			}
-			s.stepThread(n, "crashBefore")
+			s.stepThread(n, c19Call{O: "crashBefore"})
 		}
 	}
 }
@@ -1098,20 +1186,36 @@ func (u *c19SUsage) names(r *c19SRes) bool {
 // sigFor classifies a violation concerning resource k: if the label of k was last removed
 // under an out-of-date count it is the known race D16, otherwise the plain signature.
 func (s *c19Sys) sigFor(k, plain string, us ...*c19SUsage) string {
-	d16 := s.stale[k]
+	known := ""
+	switch {
+	case s.lagStale[k]:
+		// the label of k was removed on a count taken from a lagging informer cache (finding)
+		known = c19SigLagCount
+	case s.stale[k]:
+		known = "C19:marker-removed-after-stale-count"
+	}
 	for _, u := range us {
-		if s.tainted[u.UID] {
-			d16 = true
+		if known == "" && s.tainted[u.UID] != "" {
+			known = s.tainted[u.UID]
 		}
 	}
-	if d16 {
+	if known != "" {
 		for _, u := range us {
-			s.tainted[u.UID] = true
+			s.tainted[u.UID] = known
 		}
-		return "C19:marker-removed-after-stale-count"
+		return known
 	}
 	return plain
 }
+
+const (
+	// the reconciler removed the in-use label because the informer cache's Usage index lagged
+	// behind the store and did not yet list another Usage of the resource
+	c19SigLagCount = "C19:marker-removed-on-lagging-usage-index"
+	// the webhook allowed a delete because the informer cache's Usage index lagged behind the
+	// store and did not yet list a Usage of the resource
+	c19SigLagHook = "C19:delete-allowed-on-lagging-usage-index"
+)
 
 func c19Ctrl(refs []metav1.OwnerReference) types.UID {
 	for _, o := range refs {
@@ -1185,8 +1289,10 @@ func (s *c19Sys) checkState(before, after *c19Snap, step int) {
 func (s *c19Sys) afterCall(t *c19Thread, c CallInfo, before *c19Snap) {
 	after := s.snapshot()
 	if c.Verb == "list" && c.GK == c19UsageGK.String() && c.Err == "" {
-		// the reconciler counted the Usages of its used resource: remember who was there
+		// the reconciler counted the Usages of its used resource: remember who it was told about
+		// (t.served, from the informer cache) and who was there (t.listed, the store)
 		t.didList = true
+		t.listAt = t.calls
 		t.listed = map[string]bool{}
 		if me, ok := before.Usages[t.name]; ok {
 			for _, u := range before.Usages {
@@ -1195,10 +1301,14 @@ func (s *c19Sys) afterCall(t *c19Thread, c CallInfo, before *c19Snap) {
 				}
 			}
 		}
+		if !t.listLagging {
+			t.served = t.listed
+		}
 	}
 	for k, rb := range before.Res {
 		if ra, ok := after.Res[k]; !ok || ra.UID != rb.UID || (!rb.InUse && ra.InUse) {
 			delete(s.stale, k)
+			delete(s.lagStale, k)
 		}
 	}
 	if c.Verb == "list" && c.GK != c19UsageGK.String() && c.Err == "" {
@@ -1228,23 +1338,36 @@ func (s *c19Sys) afterCall(t *c19Thread, c CallInfo, before *c19Snap) {
 			if !t.didList {
 				s.mon("C19:marker-removed-before-counting", fmt.Sprintf("reconcile of Usage %s removed the in-use label of %s without first listing the Usages of that resource", t.name, k))
 			}
-			others, listedOthers := 0, 0
+			// others: Usages other than this one naming k now; servedOthers: those the reconciler's List
+			// (informer cache) had told it about; listedOthers: those that were in the store at that List
+			others, listedOthers, servedOthers := 0, 0, 0
 			for _, u := range before.Usages {
 				if u.Name != t.name && u.names(rb) {
 					others++
 					if t.listed[u.Name] {
 						listedOthers++
 					}
+					if t.served[u.Name] {
+						servedOthers++
+					}
 				}
 			}
-			if listedOthers > 0 {
-				s.mon("C19:marker-removed-with-other-usage", fmt.Sprintf("reconcile of Usage %s removed the in-use label of %s although %d other Usage(s) it had listed name that resource", t.name, k, listedOthers))
-			}
-			if t.didList && listedOthers == 0 && others > 0 {
+			switch {
+			case servedOthers > 0:
+				s.mon("C19:marker-removed-with-other-usage", fmt.Sprintf("reconcile of Usage %s removed the in-use label of %s although %d other Usage(s) it had listed name that resource", t.name, k, servedOthers))
+			case t.didList && t.listLagging && listedOthers > 0:
+				// the store had another Usage of k when the reconciler listed, the lagging cache did not
+				s.mon(c19SigLagCount, fmt.Sprintf("reconcile of Usage %s removed the in-use label of %s: its List of the Usages of that resource was answered by an informer cache lagging behind the store and did not contain %d other Usage(s) that already named the resource", t.name, k, listedOthers))
+				s.lagStale[k] = true
+			case t.didList && others > 0:
 				// every other Usage of k appeared after this reconcile counted: its count was out of date
 				s.stale[k] = true
 			}
-			_ = others
+			// the removal must be conditional on the resource not having changed since BEFORE the
+			// count: the Update has to carry a resourceVersion read before the Usages were listed
+			if t.didList && t.gotAt[k] > t.listAt {
+				s.mon("C19:marker-removed-with-rv-read-after-count", fmt.Sprintf("reconcile of Usage %s removed the in-use label of %s with a resourceVersion it read AFTER counting the Usages of that resource: a Usage appearing (or the resource changing) between the count and the removal can no longer invalidate it", t.name, k))
+			}
 		}
 	}
 }
@@ -1271,13 +1394,29 @@ func (s *c19Sys) afterDelete(before *c19Snap, group, kind, name, policy, res str
 	sort.Strings(named)
 	sort.Strings(ready)
 	allowed := strings.HasPrefix(res, "allowed")
+	// the webhook's List was answered by a lagging informer cache with no Usage of k although the
+	// store had one (finding: informer-cache lag of the Usage index)
+	lagHook := s.hookInvoked && s.hookLagging && len(s.hookServed) == 0 && len(s.hookLive) > 0
 	if allowed && len(ready) > 0 {
-		s.mon(s.sigFor(k, "C19:delete-allowed-while-ready", readyUs...), fmt.Sprintf("delete of %s was allowed although Usage(s) %v are ready and not being deleted", k, ready))
+		sig := s.sigFor(k, "C19:delete-allowed-while-ready", readyUs...)
+		if lagHook {
+			sig = c19SigLagHook
+		}
+		s.mon(sig, fmt.Sprintf("delete of %s was allowed although Usage(s) %v are ready and not being deleted", k, ready))
 	}
 	if s.hookInvoked && allowed && len(named) > 0 {
-		s.mon("C19:webhook-allowed-with-usage", fmt.Sprintf("the webhook allowed the delete of %s (request group %q) although Usage(s) %v name it", k, group, named))
+		sig := "C19:webhook-allowed-with-usage"
+		if lagHook {
+			sig = c19SigLagHook
+		}
+		s.mon(sig, fmt.Sprintf("the webhook allowed the delete of %s (request group %q) although Usage(s) %v name it", k, group, named))
 	}
-	if !allowed && len(named) == 0 && !faulty {
+	if ra, ok := after.Res[k]; ok && ra.UID == rb.UID && rb.InUse && !ra.InUse {
+		s.mon("C19:marker-removed-by-webhook", fmt.Sprintf("the delete request for %s (%s) removed its in-use label", k, res))
+	}
+	// a refusal decided on a lagging cache (a Usage that is already gone) is not the webhook's fault
+	lagRefused := s.hookInvoked && s.hookLagging && len(s.hookServed) > 0
+	if !allowed && len(named) == 0 && !faulty && !lagRefused {
 		s.mon("C19:delete-refused-without-usage", fmt.Sprintf("delete of %s was refused (%s) although no Usage names it", k, res))
 	}
 	if !allowed && !faulty && len(named) > 0 {
